@@ -40,6 +40,7 @@ import ipv8.peerdiscovery.discovery as discovery_mod
 from ipv8.community import Community, CommunitySettings
 from ipv8.messaging.interfaces.udp.endpoint import UDPv4Address
 from ipv8.peer import Peer
+from ipv8.peerdiscovery.community import DiscoveryCommunity
 from ipv8.peerdiscovery.discovery import RandomWalk
 from ipv8.peerdiscovery.network import Network
 
@@ -55,6 +56,13 @@ STEP_CAP = 400
 
 class C13Community(Community):
     community_id = b"c13-introduction-nat"
+    assert len(community_id) == 20
+
+
+class C13Discovery(DiscoveryCommunity):
+    """The overlay every IPv8 node runs: its own handler for old-style introduction requests, plus similarity traffic."""
+
+    community_id = b"c13-discovery-in-nat"
     assert len(community_id) == 20
 
 
@@ -175,8 +183,9 @@ class IntroWorld(NatWorld):
         # production: IPv8 creates my_peer without any address; the overlay derives its LAN estimate itself and the
         # WAN estimate starts out as that same value until an introduction response says otherwise
         node.my_peer = Peer(fixtures.private_key(key_index))
-        ov = node.run(lambda: C13Community(CommunitySettings(my_peer=node.my_peer, endpoint=node.endpoint,
-                                                              network=node.network)))
+        cls = C13Discovery if self.cfg.get("overlay") == "discovery" else C13Community
+        ov = node.run(lambda: cls(cls.settings_class(my_peer=node.my_peer, endpoint=node.endpoint,
+                                                     network=node.network)))
         ov.logger = RecLogger(ov.logger, self.logged, name)
         node.overlays.append(ov)
         self.ov[name] = ov
@@ -583,6 +592,12 @@ def base_configs(thorough: bool) -> list[dict]:
             if thorough:
                 out.append(variant(*p, style, 2, "warm", "b-walked", start="snapshot"))
                 out.append(variant(*p, style, 1, "cold", "x-walked", start="snapshot", remap="C"))
+        # every node runs the DiscoveryCommunity (own old-style request handler, similarity requests in flight as well)
+        for p in (pairs if thorough else same + [("diff", "port", "port"), ("diff", "addr", "full")]):
+            for k in ((1, 3) if thorough else (1,)):
+                out.append(variant(*p, style, k, "warm", "x-walked", overlay="discovery"))
+            if thorough or p[0] == "same":
+                out.append(variant(*p, style, 2, "warm", "b-walked", overlay="discovery"))
         # A already has a verified peer behind ANOTHER NAT whose LAN address is the one C has on A's own LAN
         for p in same:
             out.append(variant(*p, style, 1, "warm", "x-walked", shadow=True))
@@ -596,6 +611,7 @@ def base_configs(thorough: bool) -> list[dict]:
         c.setdefault("remap", "none")
         c.setdefault("start", "fresh")
         c.setdefault("shadow", False)
+        c.setdefault("overlay", "community")
     return out
 
 
